@@ -49,6 +49,17 @@ def cases() -> list[dict]:
     out.append(dict(table="prefix", physical=2, size=4, preset=(8, 4, 8), stmts=[tuple(C.base("a", 4)), tuple(C.base("b", 4))], integ="generic", control=True))
     out.append(dict(table="datatype", physical=1, size=3, preset=(8, 8, 3), stmts=[tuple(lits)], integ="generic", control=True))
     out.append(dict(table="name", physical=1, size=15, preset=(15, 32, 8), stmts=[(deep("s"), P.t_iri("p"), deep("o"))], integ="generic", control=True))
+    # controls with history: tables exactly as large as one statement needs, previous statements fill them first
+    for physical in (1, 2):
+        arity = 3 if physical == 1 else 4
+        for name, stmts in C.sharing_sequences(arity):
+            if name.startswith(("lru-stress", "datatype-churn")):
+                n, pf, dt = P.table_needs(stmts)
+                out.append(dict(table="all(tight):" + name, physical=physical, size=0, preset=(max(8, n), max(1, pf), max(1, dt)), stmts=stmts, integ="generic", control=True))
+    # a single namespace with a one-slot prefix table (exactly large enough)
+    one_ns = [("iri", P.sstr(P.Atom("one.scheme", nosep=True), "/", P.Atom("one.path", nosep=True), "#", P.Atom(f"l{i}", nosep=True))) for i in range(3)]
+    out.append(dict(table="prefix(single namespace)", physical=1, size=1, preset=(8, 1, 8), stmts=[tuple(one_ns), tuple(reversed(one_ns))], integ="generic", control=True))
+    out.append(dict(table="prefix(single namespace)", physical=1, size=1, preset=(8, 1, 8), stmts=[tuple(one_ns), tuple(reversed(one_ns))], integ="rdflib", control=True))
     return out
 
 
@@ -79,7 +90,7 @@ def run(prog, case: dict) -> dict:
 def check(chk: Check) -> None:
     rule = "C18.REF.refuse-or-correct"
     chk.rule(rule, "undersized enabled table: serialisation raises or the stream decodes (by the reference decoder) to the input", floor=20)
-    chk.rule("C18.REF.control", "tables exactly as large as one statement needs: serialisation succeeds and decodes to the input", floor=3)
+    chk.rule("C18.REF.control", "tables exactly as large as one statement needs: serialisation succeeds and decodes to the input", floor=10)
     chk.trusted += ["jstat.refdec (specification decoder)"]
     chk.undecided += ["which concrete statements overflow; sizes beyond the enumerated ones"]
     for res in pmap(run, cases(), min_parallel=8):
